@@ -255,9 +255,9 @@ def run_C19(ctx):
         # re-run the harness with the full families for the usable cases
         allS, allE = flagsets(), ext_flagsets()
         ids = {r["id"] for r in s_usable}
-        sc = [dict(c, flagsets=allS) for c in s_cases if c["id"] in ids][:40]
+        sc = [dict(c, flagsets=allS) for c in s_cases if c["id"] in ids][:20]
         ide = {r["id"] for r in e_usable}
-        ec = [dict(c, flagsets=allE) for c in e_cases if c["id"] in ide][:40]
+        ec = [dict(c, flagsets=allE) for c in e_cases if c["id"] in ide][:24]
         pp = {r["id"]: r["pp"] for r in s_usable + e_usable}
         recs = V.run_harness(ctx, "problems", sc, tag="-s19") + V.run_harness(ctx, "problems", ec, tag="-e19")
         usable = []
